@@ -23,7 +23,7 @@ LARGE = [('p', 2**61 - 1), ('p', 2**255 - 19), ('p', 2**127 - 1), ('p', 2**64 - 
 
 def shards(tier, seed):
     out = [{'name': f'small-{i}', 'field': list(f), 'mode': 'all'} for i, f in enumerate(SMALL)]
-    out += [{'name': f'large-{i}', 'field': list(f), 'mode': 'random', 'n': 60 if tier == 'quick' else 1500} for i, f in enumerate(LARGE)]
+    out += [{'name': f'large-{i}', 'field': list(f), 'mode': 'random', 'n': 60 if tier == 'quick' else 20000} for i, f in enumerate(LARGE)]
     return out
 
 
